@@ -163,6 +163,41 @@ def run(p, led, tier):
     else:
         led.ok("C10-R4", key, where(filt, filt.node), f"every path of {cells} cells appends exactly the returned record")
 
+    # a listener on blocked inputs that raises (A3): by then the decision must already be in the audit trail and the content
+    # in the replay memory — the block may not be forgotten because its notification failed
+    lbad, ln = [], 0
+    for T in levels[1:]:
+        def go_l(o, _T=T):
+            it, m, sig = build(o, _T, levels[-1], "SAFE" if "SAFE" in levels else levels[0], levels[0])
+            for fld in [k for k in m.fields if k == "on_threat"]:
+                m.fields[fld] = Unknown("on_threat")
+            n0 = len(m.fields[AUDIT])
+            try:
+                it.call_fi(filt, [m, sig], {})
+                return None
+            except PyRaise as e:
+                if "on_threat" not in repr(e.exc):
+                    return dict(other=repr(e.exc))
+                return dict(log_delta=len(m.fields[AUDIT]) - n0, remembered=any(isinstance(h_, Unknown) and "content" in h_.sym for h_ in m.fields[BLOCKED]))
+        try:
+            for _, r in explore(go_l, max_paths=200):
+                if r is None:
+                    continue
+                ln += 1
+                if "other" in r:
+                    lbad.append(f"T={T}: raises {r['other']}")
+                elif r["log_delta"] != 1:
+                    lbad.append(f"T={T}: the on_threat listener raised and the audit trail grew by {r['log_delta']}: the block decision is not recorded")
+                elif not r["remembered"]:
+                    lbad.append(f"T={T}: the on_threat listener raised and the blocked content is not in the replay memory: it is admitted once the rules are relaxed")
+        except Imprecise as e:
+            raise AnchorError(f"Membrane.filter with a listener could not be interpreted: {e}")
+    key = "Membrane.filter ▸ a raising on_threat listener does not lose the block (audit + replay memory first)"
+    if lbad:
+        led.fail("C10-R4", key, where(filt, filt.node), sorted(set(lbad))[0], path=sorted(set(lbad))[:4])
+    elif ln:
+        led.ok("C10-R4", key, where(filt, filt.node), f"{ln} path(s) on which the listener raises: the record is appended and the content remembered beforehand")
+
     # rate-limited and replay paths: audit + refusal
     def go_rate(o):
         it, m, sig = build(o, "DANGEROUS", "SAFE", "SAFE", "SAFE", rate=Unknown("rate_limit"))
